@@ -142,6 +142,13 @@ func runC06(c *core.Ctx) {
 	c.Doc("no-delivery-after-cancel", 14, "after an observed ctx.Done nothing is sent on a stage output")
 	c.Doc("stages", 14, "stage constructors of package pipe analysed")
 
+	// the monoid a caller builds with the library's own constructors is the one Fold folds with: From(e, op).Empty() is e and
+	// its Combine is op itself - not a method of the instance type that shadows the promoted one (shared with C10 / C17)
+	c.Doc("monoid-literal", 2, "monoid.From/FromOp build {Semigroup: combine, empty: empty}")
+	c.Doc("monoid-empty", 1, "Empty returns the stored element")
+	c.Doc("monoid-combine-promoted", 1, "Combine resolves to the stored semigroup's Combine")
+	monoidRules(c)
+
 	n := 0
 	for _, fn := range stageFuncs(c, "pipe") {
 		if isUnboundCtor(fn) {
